@@ -46,21 +46,30 @@ def degenerate_input(rng: random.Random, flavour: int) -> Dict:
         deg.append({"id": 1000 + len(deg) * 7, "len": dx[-1] + length_extra, "x": dx, "kind": "degenerate",
                     "ref": 0, "mirrored": False})
 
-    if flavour % 6 == 0:      # one- and two-label molecules
+    if flavour % 7 == 6:      # a reference whose labels stop long before its end marker; molecules longer than the
+        # labelled part but shorter than the contig length
+        if rng.random() < 0.6:
+            refs[:] = []          # the sparse reference alone (its spurious peak is then certainly selected)
+            qrys = []
+        refs.append({"id": 902, "len": 10000000 + rng.randint(0, 9) * 1000000,
+                     "x": [v * 10 for v in sorted(rng.sample(range(500, 40000), rng.randint(1, 4)))], "bp": []})
+        q(list(range(0, rng.randint(90000, 400000), 11000)))
+        q([0, 20000, 45000, 70000, 99000, 130000])
+    elif flavour % 7 == 0:      # one- and two-label molecules
         q([500])
         q([100, 9000])
         q([0])
-    elif flavour % 6 == 1:    # duplicate positions
+    elif flavour % 7 == 1:    # duplicate positions
         q([1000, 1000, 1000, 8000, 8000, 20000, 31000, 31000, 45000, 60000])
         q([10, 10])
-    elif flavour % 6 == 2:    # longer than every reference
+    elif flavour % 7 == 2:    # longer than every reference
         xs = list(range(0, big // 10 + 200000, 9000))
         q(xs)
-    elif flavour % 6 == 3:    # a reference with a single label / two labels, molecules in between
+    elif flavour % 7 == 3:    # a reference with a single label / two labels, molecules in between
         refs.append({"id": 900, "len": 500000, "x": [1234560], "bp": [123456]})
         refs.append({"id": 901, "len": 900000, "x": [100000, 8000000], "bp": [10000, 800000]})
         q([0, 7000, 15000, 21000, 30000, 41000, 47000, 58000])
-    elif flavour % 6 == 4:    # no ordinary query at all: empty result sets
+    elif flavour % 7 == 4:    # no ordinary query at all: empty result sets
         qrys = []
         q([0, 3000])
         q([200, 5000, 5100])
@@ -74,7 +83,7 @@ def one_input(args):
     seed, idx, workroot = args
     rng = random.Random(seed * 65537 + idx)
     inp = degenerate_input(rng, idx)
-    extra = VECTORS[(idx // 2) % len(VECTORS)]
+    extra = VECTORS[idx % len(VECTORS)]
     wd = os.path.join(workroot, f"c07-{os.getpid()}-{idx}")
     os.makedirs(wd, exist_ok=True)
     out = {"idx": idx, "extra": extra, "runs": {}, "degenerate": [q["id"] for q in inp["qrys"] if q["id"] >= 1000],
@@ -134,7 +143,7 @@ def run(ctx: Ctx):
         raise tlc.MachineryError("MC_Worker_d2: the D2 deviation is no longer reachable in the model")
     ctx.notes["named_deviation_D2"] = "EmptySelectionAborts=TRUE violates Inv_C07 in the model (no peak selected)"
     ctx.exhaustive = True
-    n = 32 if quick else 320
+    n = 35 if quick else 350
     jobs = [(ctx.seed * 13 + 7, i, ctx.workdir) for i in range(n)]
     with mp.get_context("fork").Pool(min(14, n)) as pool:
         results = pool.map(one_input, jobs)
